@@ -33,13 +33,21 @@ pub struct Case {
     /// this other hardware address
     #[serde(default)]
     pub alias_mac: Option<[u8; 6]>,
+    /// IP header fields the responder is not documented to look at (TOS, id, flag bits with
+    /// fragment offset 0, TTL >= 1)
+    #[serde(default)]
+    pub ip_tweak: Option<IpTweak>,
+}
+
+pub fn ip_tweak() -> impl Strategy<Value = IpTweak> {
+    (prop_oneof![2 => Just(0u8), 1 => any::<u8>()], any::<u16>(), prop_oneof![2 => Just(2u8), 1 => Just(0u8), 3 => 0u8..8], prop_oneof![2 => Just(64u8), 1 => Just(1u8), 1 => Just(255u8), 1 => any::<u8>()]).prop_map(|(tos, id, flags, ttl)| IpTweak { tos, id, flags, ttl })
 }
 
 pub fn case_strategy() -> impl Strategy<Value = Case> {
     scenario_quiet(Fam::Any).prop_flat_map(|scn| {
         let v4 = scn.net.is_v4();
         let csum = prop_oneof![5 => Just(None), 1 => prop::sample::select(vec![0u16, 0xffff, 0xdead, 1]).prop_map(Some), 1 => any::<u16>().prop_map(Some)];
-        (Just(scn), prop_oneof![2 => Just(vec![]), 1 => vec(step_leaf(), 0..=6)], req(v4), csum, prop::option::weighted(0.15, mac_unicast())).prop_map(|(scn, hist, req, req_csum, alias_mac)| Case { scn, hist, req, req_csum, alias_mac })
+        (Just(scn), prop_oneof![2 => Just(vec![]), 1 => vec(step_leaf(), 0..=6)], req(v4), csum, prop::option::weighted(0.15, mac_unicast()), prop::option::weighted(0.35, ip_tweak())).prop_map(|(scn, hist, req, req_csum, alias_mac, ip_tweak)| Case { scn, hist, req, req_csum, alias_mac, ip_tweak })
     })
 }
 
@@ -88,6 +96,11 @@ pub fn run_case(c: &Case, st: &mut Stats) -> Option<(Vec<u8>, Vec<u8>)> {
     if let Some(v) = c.req_csum {
         if set_l4_checksum(&mut reqf, v) {
             st.class("request-with-wrong-transport-checksum");
+        }
+    }
+    if let Some(t) = &c.ip_tweak {
+        if apply_ip_tweak(&mut reqf, t) {
+            st.class(&format!("request-ip-header:flags={:#x}{}", t.flags & 7, if t.ttl <= 1 { ":ttl<=1" } else { "" }));
         }
     }
     let fam = if c.scn.net.is_v4() { "v4" } else { "v6" };
